@@ -3,7 +3,10 @@ from suites import props_tree, prims, monitor, legacy, c04, sk, multiround, cxx,
 
 RULE_TREE = ("random operation histories (weighted words over fit / refine / recluster / set_merge / setters / "
              "delete_internal_nodes / reset / malformed fit; feature counts 1..24, 63, 64, 65, 100, 256; prototype+noise, "
-             "duplicate, all-zero/all-one and Bernoulli rows; all six criteria) executed on the real estimator and on the "
+             "duplicate, all-zero/all-one and Bernoulli rows; all six criteria; every run starts with forced structured histories: nodes "
+             "with > 255 entries, clusters beyond 255 members, clusters of exactly 255 members that are exported and re-imported, offset "
+             "labellings refined with initial_mol = base; 4% of the fits carry explicit labels incl. duplicates; whole inputs with a wrong "
+             "feature count; configuration through set_merge and through the attribute setters) executed on the real estimator and on the "
              "Lean model, compared after every operation; non-trivial = distinct history whose final state has at least one "
              "multi-member cluster (and, for structure suites, a tree of height >= 1)")
 
